@@ -5,6 +5,6 @@ if ! git -C /repo diff --quiet; then echo "repo dirty"; exit 2; fi
 git -C /repo apply "$p" || { echo "patch does not apply"; exit 2; }
 for c in "$@"; do
   out=$(cd /verif && python3 vcheck.py $c --tier ${TIER:-quick} 2>&1); rc=$?
-  echo "== $c rc=$rc"; echo "$out" | grep -E "VIOLATION|KNOWN|HARNESS|INCONCL|held" | cut -c1-330 | head -${LINES_MAX:-4}
+  echo "== $c rc=$rc"; echo "$out" | grep -E "VIOLATION|HARNESS|INCONCL|held" | cut -c1-330 | head -${LINES_MAX:-4}
 done
 git -C /repo checkout -- .
